@@ -175,11 +175,11 @@ type Broker struct {
 	nextRid  uint32
 	aliasOff uint32
 	// Unreliable: the dialer also offers an unreliable transport (second in-memory pipe)
-	Unreliable bool
-	pointHolds []*pointHold
+	Unreliable   bool
+	pointHolds   []*pointHold
 	handlerHolds []*handlerHold
 	aliasReuse   bool // upstream stream aliases of closed streams are handed out again
-	noRead     bool
+	noRead       bool
 }
 
 // NewBrokerEnc is NewBroker with the wire encoding of the scenario ("json", otherwise protobuf).
